@@ -6,7 +6,8 @@ import subprocess
 
 VERIF = os.path.dirname(os.path.dirname(os.path.abspath(__file__)))
 REPO = os.environ.get("VERIF_REPO", "/repo")
-BUILD = os.path.join(VERIF, "build", "replayer")
+import hashlib
+BUILD = os.path.join(VERIF, "build", "replayer" if REPO == "/repo" else "replayer-" + hashlib.sha1(REPO.encode()).hexdigest()[:8])
 TARGET = os.path.join(VERIF, "build", "replayer-target")
 
 
